@@ -23,6 +23,8 @@ func main() {
 		os.Exit(cmdCheck(os.Args[2:]))
 	case "replay":
 		os.Exit(cmdReplay(os.Args[2:]))
+	case "oracle":
+		os.Exit(cmdOracle(os.Args[2:]))
 	default:
 		fmt.Fprintln(os.Stderr, "unknown command")
 		os.Exit(2)
@@ -93,3 +95,23 @@ func cmdRun(args []string) {
 	}
 }
 
+
+// oracle: validate the reference model by running the zex cases on it natively.
+func cmdOracle(args []string) int {
+	mode := "quick"
+	if len(args) > 0 {
+		mode = args[0]
+	}
+	L, err := Load([]string{"z80"})
+	if err != nil {
+		fmt.Fprintln(os.Stderr, err)
+		return 2
+	}
+	defer L.Close()
+	out, err := L.GoTestNative("z80", "^TestVOracleZex$", []string{"VERIF_ORACLE=" + mode}, "60m")
+	fmt.Println(lastLines(out, 12))
+	if err != nil {
+		return 1
+	}
+	return 0
+}
